@@ -11,6 +11,9 @@ import Bmc.Driver.Send
 import Bmc.Driver.SlSend
 import Bmc.Driver.Hs
 import Bmc.Driver.Suite
+import Bmc.Driver.Hist
+import Bmc.Driver.Conv
+import Bmc.Driver.Enc
 open Bmc.Driver
 
 def decTables : List (String × DecFn) := decTableBasic ++ decTableCore ++ decTableSess ++ decTableDcmi ++ decTableSdr ++ decTableSetup
@@ -37,6 +40,11 @@ def step (line : String) : String :=
   | id :: _cls :: "slsend" :: args => s!"{id} {evalSlSend args}"
   | id :: _cls :: "hs" :: args => s!"{id} {evalHs args}"
   | id :: _cls :: "suite" :: args => s!"{id} {evalSuite args}"
+  | id :: _cls :: "hist" :: args => s!"{id} {evalHist args}"
+  | id :: _cls :: "conv" :: args => s!"{id} {evalConv args}"
+  | id :: _cls :: "enc" :: args => s!"{id} {evalEnc args}"
+  | id :: _cls :: "pkt" :: args => s!"{id} {evalPkt args}"
+  | id :: _cls :: "pktcmd" :: args => s!"{id} {evalPktCmd args}"
   | id :: _ => s!"{id} bad-op"
   | [] => ""
 
